@@ -73,8 +73,11 @@ let () = run_driver (function
     if op = "null" then "fail" else begin
       let faces = faces_of (nats_of fs) in
       let opp = List.map (fun t -> if t = "-1" then None else Some (nat t)) (csv op) in
-      (* the hypothesis of C14_strips_store_sound_partial, evaluated on this case *)
-      let hyp = if strips_walks_ok faces opp then "" else " WALK-HYPOTHESIS-FAILED" in
+      (* the only hypothesis of C14_strips_restart_preserve / C14_strips_degenerate_preserve (the library's
+         opposite-corner table is a symmetric pairing of existing corners), evaluated on the table the library built
+         for this case; and the proved consequence that every stored strip crosses only seam-free edges *)
+      let hyp = (if opp_wf_b faces opp then "" else " WF-HYPOTHESIS-FAILED") ^
+                (if strips_walks_ok faces opp then "" else " WALK-HYPOTHESIS-FAILED") in
       (if mode = "r" then
         (match strips_restart faces opp with
          | None -> "fail"
